@@ -88,7 +88,7 @@ PROPS = {
                 "spaces, trailing junk, .0, e0) + junk strings (empty, signs only, hex, underscores, fullwidth/Arabic digits, 40-digit, 73-digit zeros) "
                 "+ non-UTF-8; same for u64; every ASCII-case variant of the 12 boolish literals +- space/junk, every single byte and every literal with one position replaced by each of the 256 byte values, for bool/boolish/falsey/non-empty. "
                 "Oracle: independent decimal model (no machine-integer parsing; i128 after a length check) intersected with range and type; "
-                "error kind and 'error names the argument'; every 7th (type,range) also through a real parse `--num=<s>`. "
+                "error kind and 'error names the argument' (also for non-UTF-8 input: F38 known for the to_str()-based parsers); each range declared in one call and in two narrowing calls; every 7th (type,range) also through a real parse `--num=<s>`. "
                 "random: possible-value sets (aliases, hidden, ignore_case, non-ASCII names) x candidate strings; typed-access histories "
                 "(get_one/many, remove_one/many/occurrences, contains_id x right type/wrong type/unknown id, incl. an argument present without any value) against a map model with a full "
                 "snapshot comparison after every step; random ranges x random digit strings. distinct_nontrivial = distinct (type,range) "
@@ -104,7 +104,7 @@ PROPS = {
     "C02": {
         "quick_ms": 20000,
         "thorough_ms": 300000,
-        "floors": {"shape.positionals-declared-out-of-index-order": 2000, "shape.last-positional-after-omitted-one": 150, "shape.last-positional-after-omitted-one.out-of-index-order": 20, "shape.more-than-20-items": 500, "spelling.prefix.long-by-setting-two-levels-up": 500, "spelling.sub.long-flag-prefix": 150, "result.ok": 10000, "spelling.cluster.option-last": 100, "spelling.opt.long-eq": 500, "spelling.opt.short-attached": 150,
+        "floors": {"spelling.value.non-utf8": 10000, "spelling.value.non-utf8-attached": 1000, "shape.positionals-declared-out-of-index-order": 2000, "shape.last-positional-after-omitted-one": 150, "shape.last-positional-after-omitted-one.out-of-index-order": 20, "shape.more-than-20-items": 500, "spelling.prefix.long-by-setting-two-levels-up": 500, "spelling.sub.long-flag-prefix": 150, "result.ok": 10000, "spelling.cluster.option-last": 100, "spelling.opt.long-eq": 500, "spelling.opt.short-attached": 150,
                    "spelling.prefix.long": 250, "spelling.escape.optional": 150, "spelling.escape.required-for-last": 150,
                    "spelling.terminator": 100, "spelling.sub.short-flag": 50, "spelling.sub.long-flag": 50, "spelling.pos.multi": 500},
         "rule": "conventional-class command trees (flags SetTrue/SetFalse/Count, options Set/Append with num_args in {1, 2, 1..=3, 2..=3, 1.., 0.., 0..=1}, "
@@ -128,7 +128,7 @@ PROPS = {
     "C07": {
         "quick_ms": 15000,
         "thorough_ms": 240000,
-        "floors": {"fold.ok": 10000, "repeat.rejected": 1000, "fold.count_saturated": 100, "fold.removed_by_override": 500,
+        "floors": {"group.present": 10000, "group.member-removed-by-override": 2500, "fold.ok": 10000, "repeat.rejected": 1000, "fold.count_saturated": 100, "fold.removed_by_override": 500,
                    "fold.append_multi": 500, "seq.count_boundary": 250, "fold.empty-occurrence": 500, "depth.2": 5000},
         "rule": "1-4 arguments (Set/Append/SetTrue/SetFalse/Count, optional num_args 1..=2 or 0..=N with/without default_missing_value, delimiter, default) with a random override graph "
                 "(both declaration directions, self-overrides, args_override_self), living 0-2 subcommand levels below the command that declares args_override_self, x occurrence sequences of length 0..300 "
@@ -144,7 +144,7 @@ PROPS = {
     "C08": {
         "quick_ms": 20000,
         "thorough_ms": 300000,
-        "floors": {"spelling.cluster.parent-flags-before-flag-sub": 250, "spelling.cluster.child-flags-after-flag-sub": 500, "spelling.sub.long-flag-prefix": 500, "spelling.prefix.long-by-setting-two-levels-up": 2500, "rewrite.both-ok": 10000, "ambiguous.probes": 1000, "ambiguous.arg-vs-flag-subcommand": 50, "ambiguous.sub-probes": 50,
+        "floors": {"spelling.value.non-utf8-attached": 1500, "spelling.cluster.parent-flags-before-flag-sub": 250, "spelling.cluster.child-flags-after-flag-sub": 500, "spelling.sub.long-flag-prefix": 500, "spelling.prefix.long-by-setting-two-levels-up": 2500, "rewrite.both-ok": 10000, "ambiguous.probes": 1000, "ambiguous.arg-vs-flag-subcommand": 50, "ambiguous.sub-probes": 50,
                    "spelling.prefix.long": 250, "spelling.cluster.flags": 150, "spelling.opt.short-attached": 150, "spelling.escape.optional": 150,
                    "spelling.sub.alias": 100, "rewrite.index-rank-compare": 100},
         "rule": "conventional command trees (as C02) x valid intents; the canonical rendering (full names, separate tokens) is compared with 3 "
@@ -164,7 +164,7 @@ PROPS = {
     "C05": {
         "quick_ms": 15000,
         "thorough_ms": 240000,
-        "floors": {"tail.after-values-of-negative-number-positional": 1000, "tail.ok": 10000, "tail.dash-tokens": 5000, "tail.after-values-before-escape": 2500, "tail.dont-delimit-with-delimiter": 500, "tail.terminator-declared": 2500},
+        "floors": {"tail.non-utf8-with-delimiter": 1500, "tail.after-values-of-negative-number-positional": 1000, "tail.ok": 10000, "tail.dash-tokens": 5000, "tail.after-values-before-escape": 2500, "tail.dont-delimit-with-delimiter": 500, "tail.terminator-declared": 2500},
         "rule": "conventional commands (options, flags, subcommands incl. flag subcommands, infer_*) whose tail level (root or a subcommand) ends in a "
                 "multi-valued positional `rest` (num_args 0.. / 1.., Set/Append, with/without last(true), with/without a leading single positional (sometimes with explicit indices and the higher index declared first), "
                 "String or OsString parser, optional delimiter, dont_delimit_trailing_values, optional value terminator `end` with/without ignore_case) x valid prefixes rendered from intents (any spelling; "
@@ -182,7 +182,7 @@ PROPS = {
     "C06": {
         "quick_ms": 15000,
         "thorough_ms": 240000,
-        "floors": {"verdict.ok-after-ignored-error": 10000, "lattice.Cli": 10000, "lattice.Env": 5000, "lattice.Default": 5000, "lattice.absent": 2500, "lattice.default_if_fired": 1000,
+        "floors": {"lattice.env-value-not-utf8": 5000, "verdict.ok-after-ignored-error": 10000, "lattice.Cli": 10000, "lattice.Env": 5000, "lattice.Default": 5000, "lattice.absent": 2500, "lattice.default_if_fired": 1000,
                    "lattice.default_if_unset": 150, "lattice.default_missing_used": 1000, "verdict.err-as-expected": 1500,
                    "lattice.global-redeclared.Cli": 500, "lattice.global-redeclared.Env": 500, "lattice.flag-env-falsey-parser": 2500, "lattice.flag-env-empty": 150, "lattice.group.Some(Cli)": 2000, "lattice.group.Some(Env)": 500, "lattice.group.None": 1000, "lattice.group-conflict": 500},
         "rule": "2-5 arguments each drawing a subset of {default_value(s), default_value_if(s) (IsPresent/Equals, Some/None default) on a plain "
@@ -240,7 +240,7 @@ PROPS = {
     "C10": {
         "quick_ms": 20000,
         "thorough_ms": 300000,
-        "floors": {"faultfree.prefix-by-inherited-setting": 250, "faultfree.accepted": 5000, "fault.UnknownLong": 2500, "fault.SurplusPositional": 500, "fault.DropRequired": 500, "fault.RepeatSet": 150,
+        "floors": {"else-help.shown": 2500, "faultfree.prefix-by-inherited-setting": 250, "faultfree.accepted": 5000, "fault.UnknownLong": 2500, "fault.SurplusPositional": 500, "fault.DropRequired": 500, "fault.RepeatSet": 150,
                    "fault.TooFewValues": 500, "fault.NoValueAtEnd": 500, "fault.ValueOnFlag": 1000, "fault.BadTypedValue": 250, "fault.MissingEquals": 40,
                    "fault.MissingSubcommand": 50, "fault.NonUtf8": 1500, "fault.UnknownWord": 150, "contract.DisplayHelp": 50, "contract.DisplayVersion": 15,
                    "relations.conflict-error": 1000, "relations.missing-error": 1000, "suggestion.arg": 50, "suggestion.subcommand": 15},
@@ -277,7 +277,7 @@ PROPS = {
         "rel_replay": True,
         "quick_ms": 20000,
         "thorough_ms": 300000,
-        "floors": {"hidden.arg-of-a-level-above-checked": 2500, "width.beyond-200": 500, "render.ok": 10000, "render.width-sweep": 10000, "helpflag.rendered": 10000, "helpflag.level-checked": 5000, "visible.checked": 25000,
+        "floors": {"hidden.subcommand-checked-in-help-of-help": 500, "helpsub.own-help-rendered": 2500, "hidden.arg-of-a-level-above-checked": 2500, "width.beyond-200": 500, "render.ok": 10000, "render.width-sweep": 10000, "helpflag.rendered": 10000, "helpflag.level-checked": 5000, "visible.checked": 25000,
                    "visible.checked-short-only": 1500, "hidden.arg-checked": 1500, "hidden.subcommand-checked": 1500, "hidden.possible-value-checked": 150,
                    "visible.possible-value-checked": 500, "stratum.sparse-sections": 1000, "helpsub.rendered": 1000,
                    "hidden.custom-template-pages": 2500, "hidden.mode-hidden-option-checked": 1500},
@@ -380,7 +380,7 @@ PROPS = {
     "C15": {
         "quick_ms": 15000,
         "thorough_ms": 240000,
-        "floors": {"update.flattened-enum.own-variant-to-flattened-child": 500, "update.flattened-enum.flattened-child-to-other-flattened-child": 500, "update.flattened-enum.same-variant": 250, "update.flattened-enum.to-own-variant": 500, "roundtrip.ok": 10000, "agree.ok": 15000, "agree.err": 15000, "update.ok": 5000, "update.unnamed-field-kept": 5000, "value_enum.names": 500,
+        "floors": {"update.flattened-struct.boxed-required-not-named": 2500, "update.flattened-enum.own-variant-to-flattened-child": 500, "update.flattened-enum.flattened-child-to-other-flattened-child": 500, "update.flattened-enum.same-variant": 250, "update.flattened-enum.to-own-variant": 500, "roundtrip.ok": 10000, "agree.ok": 15000, "agree.err": 15000, "update.ok": 5000, "update.unnamed-field-kept": 5000, "value_enum.names": 500,
                    "type.N": 500, "type.A": 500, "type.B": 500, "type.C": 500, "type.D": 500, "type.E": 500, "type.F": 500, "type.G": 500, "type.L": 500,
                    "update.sub.option.same-variant": 300, "update.sub.option.other-variant": 300, "update.sub.plain.same-variant": 300, "update.sub.option.no-subcommand-named": 150},
         "rule": "corpus of 11 derived Parser types (+ Args, 3 Subcommand enums, 1 ValueEnum) spanning bool / SetFalse bool / counter / T / Option<T> / "
